@@ -29,6 +29,10 @@ type witnessResult struct {
 
 var witnesses []witness
 
+// witnessBase, when set, is the loaded unchanged program: witnesses that only edit function bodies are evaluated by
+// re-type-checking the edited package alone (Prog.withFile) instead of a full load.
+var witnessBase *Prog
+
 func addWitness(w witness) { witnesses = append(witnesses, w) }
 
 func witnessesFor(prop string) []witness {
@@ -44,6 +48,9 @@ func witnessesFor(prop string) []witness {
 
 func runWitnesses(repo string, ws []witness) []witnessResult {
 	var res []witnessResult
+	if witnessBase == nil || witnessBase.RepoDir != repo {
+		witnessBase = loadProg(repo, "", nil)
+	}
 	for _, w := range ws {
 		res = append(res, runWitness(repo, w))
 		runtime.GC()
@@ -78,7 +85,18 @@ func runWitness(repo string, w witness) (r witnessResult) {
 			panic(rec)
 		}
 	}()
-	p := loadProg(repo, "", map[string][]byte{path: []byte(mutated)})
+	var p *Prog
+	if witnessBase != nil && witnessBase.RepoDir == repo {
+		if np, ok, why := witnessBase.withFile(path, []byte(mutated)); ok {
+			p = np
+		} else if strings.Contains(why, "does not type-check") {
+			r.Status, r.Detail = "not-compiling", why
+			return
+		}
+	}
+	if p == nil {
+		p = loadProg(repo, "", map[string][]byte{path: []byte(mutated)})
+	}
 	spec := registry[w.Prop]
 	c := newCtx(w.Prop, "witness", p)
 	spec.run(c)
@@ -111,6 +129,7 @@ func runSelftest(repo, verif, prop string) int {
 	}
 	rc := 0
 	counts := map[string]int{}
+	witnessBase = loadProg(repo, "", nil)
 	for _, w := range ws {
 		r := runWitness(repo, w)
 		counts[r.Status]++
